@@ -310,7 +310,11 @@ func runC20(c *ctx) {
 			Reset()
 			Size() int
 			BlockSize() int
-		} { h := sha1.New(); h.Write(data); return h }())
+		} {
+			h := sha1.New()
+			h.Write(data)
+			return h
+		}())
 		idx := c.addCase(fmt.Sprintf("CMinus %s %s", qs(r.String()), qs(r.StringMinusOne())),
 			map[string]any{"op": "reffrombytes", "len": n}, true)
 		c.rep.SpecChecks++
